@@ -725,7 +725,7 @@ def history_classes(case, s, infos):
     return cl
 
 
-def make_prop(cfg, checks, kinds=None, nontrivial=None, examples=(8, 8), nops=(1, 3), depth=None, pre=None):
+def make_prop(cfg, checks, kinds=None, nontrivial=None, examples=(6, 6), nops=(1, 3), depth=None, pre=None):
     def check_case(case, ctx=None):
         if pre is not None:
             pre(case, ctx)
